@@ -47,7 +47,7 @@ func runC13(c *core.Ctx) {
 	c.Rule("R8", "a topology change replaces every derived Ring field unconditionally", 1)
 	c.Rule("R7", "the token→instance map shared with subrings is immutable (replaced, never modified, never handed out)", 1)
 	c.Rule("R3", "index replacement resets both caches and the topology stamp; cache fills guarded by stamp equality", 4)
-	c.Rule("R4", "cache keys are complete and agree between getter and setter", 4)
+	c.Rule("R4", "cache keys are complete, agree between getter and setter, and callers pass the request's own arguments", 8)
 	c.Rule("R5", "PartitionRing immutable after construction; fresh cache; watcher swaps under lock", 3)
 	c.Rule("R6", "look-back cache validity bound considers every timestamp the shard walk compares with the threshold", 2)
 	pkg := c.Prog.Pkg("ring")
@@ -453,6 +453,48 @@ func c13Caches(c *core.Ctx, pkg *packages.Package) {
 		}
 	}
 	c13Fills(c, pkg, "R3")
+	// R4: the public entry points hand the request's own identifier, size, period and time to the cache accessors
+	for _, e := range []struct {
+		fn     string
+		callee []string
+		n      int
+	}{
+		{"Ring.ShuffleShard", []string{"getCachedShuffledSubring", "setCachedShuffledSubring"}, 2},
+		{"Ring.ShuffleShardWithLookback", []string{"getCachedShuffledSubringWithLookback", "setCachedShuffledSubringWithLookback"}, 4},
+		{"PartitionRing.ShuffleShard", []string{"getSubring", "setSubring"}, 2},
+		{"PartitionRing.ShuffleShardWithLookback", []string{"getSubringWithLookback", "setSubringWithLookback"}, 4},
+	} {
+		f := an.FindFunc(pkg, e.fn)
+		if f == nil {
+			c.Miss("R4", "func="+e.fn+":args", "not found")
+			continue
+		}
+		c.Analysed(f.String())
+		bad := []string{}
+		seen := 0
+		for _, call := range f.Calls(false) {
+			fo := call.Func()
+			if fo == nil {
+				continue
+			}
+			match := false
+			for _, n := range e.callee {
+				if an.PinnedName(fo) == n {
+					match = true
+				}
+			}
+			if !match {
+				continue
+			}
+			seen++
+			for i := 0; i < e.n && i < len(call.Expr.Args); i++ {
+				if got := f.Canon(call.Expr.Args[i]); got != fmt.Sprintf("p%d", i) {
+					bad = append(bad, fmt.Sprintf("%s arg %d = %s", fo.Name(), i, got))
+				}
+			}
+		}
+		c.Check(len(bad) == 0 && seen >= 2, "R4", "func="+e.fn+":args", f.Pos(), fmt.Sprintf("cache lookup and fill are keyed by the request's own identifier/size%s, unchanged (%d calls; deviations: %v)", map[int]string{2: "", 4: "/period/time"}[e.n], seen, bad), seen)
+	}
 	// R4 keys
 	type keyUse struct {
 		fn   string
